@@ -84,6 +84,37 @@ fn main() {
             println!("{}\n{}", s, st); for (k, d) in &f { println!("MONITOR-FAIL {} {}", k, d); }
             std::process::exit(if f.is_empty() { 0 } else { 1 });
         }
+        Some("ids") => {
+            // C19: adversarial toolchain ids on the real TcCache: every file created must stay under the cache root, nothing may panic
+            verif_harness::quiet_panics();
+            // (ids whose second byte is `/` would address the real file-system root: not probed, the scratch-confined ones show the same arithmetic)
+            let ids = ["", "a", "ab", "abcdef", "<ABS>", "../../escape", "..", "éé", "ab/../../../x", "0123456789abcdef0123456789abcdef0123456789abcdef0123456789abcdef"];
+            let mut out = vec![];
+            for id0 in ids {
+                let tmp = tempfile::tempdir().unwrap(); let root = tmp.path().join("srv").join("tc"); std::fs::create_dir_all(&root).unwrap();
+                let abs = format!("{}/abs-escape", tmp.path().canonicalize().unwrap().display());
+                let id: &str = if id0 == "<ABS>" { &abs } else { id0 };
+                let written: std::sync::Arc<std::sync::Mutex<Option<std::path::PathBuf>>> = Default::default();
+                let w2 = written.clone();
+                let r = std::panic::catch_unwind(std::panic::AssertUnwindSafe(|| {
+                    let mut tc = TcCache::new(&root, 1_000_000).unwrap();
+                    let t = Toolchain { archive_id: id.to_string() };
+                    let has = tc.contains_toolchain(&t);
+                    // where does the upload really land? (the file may be removed again when its digest does not match)
+                    let ins = tc.insert_with(&t, |mut f| { use std::os::fd::AsRawFd; *w2.lock().unwrap() = std::fs::read_link(format!("/proc/self/fd/{}", f.as_raw_fd())).ok(); f.write_all(b"payload") }).is_ok();
+                    (has, ins)
+                }));
+                // anything created outside the cache root (but inside the scratch dir, which is all an escape with few `..` can reach)
+                let mut outside = vec![];
+                if let Some(p) = written.lock().unwrap().clone() { let canon = root.canonicalize().unwrap(); if !p.starts_with(&canon) { outside.push(format!("upload written to {}", p.display().to_string().replace(&tmp.path().canonicalize().unwrap().display().to_string(), "<scratch>"))); } }
+                for e in walkdir::WalkDir::new(tmp.path()).into_iter().filter_map(|e| e.ok()) { if e.file_type().is_file() && !e.path().starts_with(&root) { outside.push(e.path().strip_prefix(tmp.path()).unwrap().display().to_string()); } }
+                let abs_created = id.starts_with('/') && std::path::Path::new(id).exists();
+                if abs_created { let _ = std::fs::remove_file(id); }
+                let _ = abs_created;
+                out.push(format!("{{\"id\":{},\"panicked\":{},\"outside_root\":{}}}", jstr(&id.replace(&tmp.path().canonicalize().unwrap().display().to_string(), "/<scratch>")), r.is_err(), jstr(&outside.join(","))));
+            }
+            println!("[{}]", out.join(","));
+        }
         _ => std::process::exit(2),
     }
 }
